@@ -35,6 +35,12 @@ CLAIMED.update({
 CLAIMED["C17"] = dict(engine="kms", technique="TLA+ model of multi-region wrap/unwrap (KmsRegions.tla) checked by TLC; every generated case executed on the real v1/v2 plugins over fake regional clients; recorded runs validated by TLC",
     text="TLC enumerates every case of the quantifier (region sets, preferred region, failing subsets at wrap and unwrap time, plugin pairs v1/v2 in both directions) and proves the C17 predicates for the design over all client orders; each case is executed on freshly built real plugins and the recorded run (success flags, envelope entries, per-region call order, identical bytes, data key wiped) is validated by TLC against the same predicates.",
     note="regional KMS endpoints are fakes at the SDK client boundary; <=3 regions quick / <=4 thorough; order of non-preferred regions not controlled (Go map iteration)", ref="5/C17, 4.6")
+CONC_TECH = "TLA+ design model checked by TLC (incl. a deliberately broken variant that must fail) + systematic/PCT/random schedule exploration of the instrumented real code under a cooperative scheduler, every schedule's trace validated by TLC against the TLA+ monitor RefMonitor.tla"
+CONC_NOTE = "schedules explored at instrumented synchronisation points only (build-overlay rewrite of Lock/Unlock/atomics/Cond/channel/WaitGroup/go); 2-3 goroutines, 2-4 partitions, capacities 1-2 (and 100 for asynchronous eviction in thorough); <= 2 preemptions systematically, PCT and random beyond; tracking pure-Go secrets"
+CLAIMED["C08"] = dict(engine="conc", technique=CONC_TECH, ref="5/C08, 4.2", note=CONC_NOTE,
+    text="KeyCacheConc.tla models lookup / reference / eviction at the granularity of the instrumented synchronisation points and TLC proves NoUseAfterDestroy for the code's discipline (and finds the violation when the reference is taken outside the lock); the real key caches are then run under a cooperative scheduler that makes every lock, atomic and external call a scheduling choice: bounded-preemption systematic search, PCT and random schedules over shared / per-session caches of every policy at capacity 1-2 with refresh storms and session-cache churn; TLC validates each run: no access to a destroyed secret, every operation succeeds with the right bytes, everything released once, no deadlock.")
+CLAIMED["C16"] = dict(engine="conc", technique=CONC_TECH, ref="5/C16, 4.3", note=CONC_NOTE,
+    text="SessionCache.tla models Get under the wrapper mutex, the usage counter, eviction-spawned Remove goroutines waiting on the condition variable and factory close; TLC proves a held session is never torn down, one cached session per partition, teardown at most once and (liveness, under fairness) eventually - and finds the violation for a single-wake-up variant; the real session cache is explored under the cooperative scheduler (its event goroutine, Remove goroutines, condition variable and channel all scheduled) with more partitions than capacity, every policy, expiry by virtual clock and multiple holders; TLC validates each run against RefMonitor.tla.")
 PENDING = {}
 
 def main():
